@@ -78,7 +78,64 @@ DoSetCond == Is("set_cond") /\ CtlOk /\ Write(IF e.ctl = "ones" THEN R(e.a) ELSE
 DoSelect == Is("select") /\ CtlOk /\ Write(IF e.ctl = "ones" THEN R(e.a1) ELSE R(e.a0))
 DoCondNeg == Is("set_condneg") /\ CtlOk /\ Write(IF e.ctl = "ones" THEN GNeg(grp, R(e.a)) ELSE R(e.a))
 
-Next == \/ DoInit \/ DoConst \/ DoDecode
+(* ---- structure tests and coordinate maps of the plain curves ---- *)
+FP == CurveOf(grp).p
+FLen == IF grp = "ed448" THEN 56 ELSE 32
+FV(b) == FromBytesLE(b)
+\* low order: killed by the cofactor (8 on edwards25519, 4 on edwards448)
+DoHasLowOrder == Is("has_low_order") /\ Observe(Has("st") /\ e.st = Status(Cof(R(e.a)) = GNeutral(grp)))
+DoIsInSubgroup == Is("is_in_subgroup")
+                  /\ Observe(Has("st") /\ e.st = Status(GMul(grp, ScalarOrder(grp), R(e.a)) = GNeutral(grp)))
+\* birational map to the Montgomery curve: u = (1+y)/(1-y) on edwards25519, u = y^2/x^2 on
+\* edwards448; 0 for the neutral (x/0 = 0).  Projective form (edwards25519): X/Z = u, and
+\* Z = 0, X # 0 exactly for the neutral.
+MontU(P) == IF grp = "ed25519" THEN FDiv(FP, FAdd(FP, One, P[2]), FSub(FP, One, P[2]))
+            ELSE FSq(FP, FDiv(FP, P[2], P[1]))
+DoMontU == Is("to_montgomery_u")
+           /\ LET P == R(e.a)
+                  u == MontU(P)
+              IN Observe(/\ Has("u") /\ e.u = ToBytesLE(u, FLen)
+                         /\ (grp = "ed25519" =>
+                               IF P = GNeutral(grp) THEN FV(e.pz) = Zero /\ FV(e.px) # Zero
+                               ELSE FV(e.pz) # Zero /\ FV(e.px) = FMul(FP, u, FV(e.pz))))
+\* Weierstrass curves.  to_affine: the affine coordinates; for the point at infinity the
+\* documented substitutes (x = 1 on P-256, x = 0 on secp256k1, y = 0).  (The returned flag r
+\* is logged but not compared: see DESIGN.md, observations.)
+DoToAffine == Is("to_affine")
+              /\ LET P == R(e.a)
+                 IN Observe(/\ Has("x") /\ Has("y")
+                            /\ IF IsInf(P) THEN FV(e.x) = (IF grp = "p256" THEN One ELSE Zero) /\ FV(e.y) = Zero
+                               ELSE e.x = ToBytesLE(P[1], 32) /\ e.y = ToBytesLE(P[2], 32))
+\* to_projective: X = Z = 0 (and Y # 0) for infinity; otherwise Z # 0, x = X/Z, y = Y/Z
+DoToProjective == Is("to_projective")
+                  /\ LET P == R(e.a)
+                     IN Observe(/\ Has("x") /\ Has("y") /\ Has("z")
+                                /\ IF IsInf(P) THEN FV(e.x) = Zero /\ FV(e.z) = Zero /\ FV(e.y) # Zero
+                                   ELSE /\ FV(e.z) # Zero
+                                        /\ FV(e.x) = FMul(FP, P[1], FV(e.z)) /\ FV(e.y) = FMul(FP, P[2], FV(e.z)))
+\* constructors: the coordinates (reduced) must satisfy the curve equation; any (X : Y : 0) is
+\* accepted as the point at infinity
+Constructed(ok, P) == IF ok THEN Advance(Put(P), Has("some") /\ e.some = TRUE /\ Has("out") /\ e.out = GEncode(grp, P))
+                      ELSE Advance(regs, Has("some") /\ e.some = FALSE)
+DoFromAffine == Is("from_affine")
+                /\ LET P == <<Mod(FV(e.x), FP), Mod(FV(e.y), FP)>>
+                   IN Constructed(WOn(CurveOf(grp), P), P)
+DoFromProjective == Is("from_projective")
+                    /\ LET x == Mod(FV(e.x), FP)  y == Mod(FV(e.y), FP)  z == Mod(FV(e.z), FP)
+                           P == IF z = Zero THEN Inf ELSE <<FDiv(FP, x, z), FDiv(FP, y, z)>>
+                       IN Constructed(z = Zero \/ WOn(CurveOf(grp), P), P)
+\* x-only sequence (P-256): x(P0 + i*Q) for i = 0..n+1 with Q = P1 - P0; 1 stands for infinity
+XA(P) == IF IsInf(P) THEN One ELSE P[1]
+RECURSIVE XSeqOk(_, _, _, _)
+XSeqOk(P, Q, i, n) ==
+    IF i = n THEN e.xn = ToBytesLE(XA(P), 32) /\ e.xn1 = ToBytesLE(XA(GAdd(grp, P, Q)), 32)
+    ELSE e.xs[i + 1] = ToBytesLE(XA(P), 32) /\ XSeqOk(GAdd(grp, P, Q), Q, i + 1, n)
+DoXSeq == Is("xseq")
+          /\ Observe(/\ Has("xs") /\ Has("xn") /\ Has("xn1") /\ Len(e.xs) = e.n
+                      /\ XSeqOk(R(e.a), GAdd(grp, R(e.b), GNeg(grp, R(e.a))), 0, e.n))
+
+Next == \/ DoInit \/ DoConst \/ DoDecode \/ DoHasLowOrder \/ DoIsInSubgroup \/ DoMontU
+        \/ DoToAffine \/ DoToProjective \/ DoFromAffine \/ DoFromProjective \/ DoXSeq
         \/ DoAdd \/ DoSub \/ DoNeg \/ DoDouble \/ DoXDouble \/ DoMulSmall
         \/ DoMul \/ DoMulGen \/ DoMulAddMulGen \/ DoMul128 \/ DoMul64Mu \/ DoVerifyHelper
         \/ DoOneWayMap \/ DoEncode \/ DoEquals \/ DoIsNeutral \/ DoSetCond \/ DoSelect \/ DoCondNeg
